@@ -43,18 +43,18 @@ def written_sets(ex, body_runner, st):
         del ctx.obls[n_o:]
         ctx.dropped[:] = saved_drop
         ctx.depth = saved_depth
-    wv, wh = set(), set()
+    wv, wh = {}, set()
     if after is not None:
         for k, v in after.vars.items():
             b = before_vars.get(k)
             if b is None or v is POISON or b is POISON:
                 if k not in before_vars or v is not b:
-                    wv.add(k)
+                    wv[k] = None if v is POISON else v.kind
                 continue
             if v is b:
                 continue
             if v.kind != b.kind or len(v.terms) != len(b.terms) or any(not x.eq(y) for x, y in zip(v.terms, b.terms)):
-                wv.add(k)
+                wv[k] = v.kind
         for k, arrs in after.heap.items():
             b = before_heap.get(k)
             if b is None or any(not x.eq(y) for x, y in zip(arrs, b)):
@@ -202,6 +202,22 @@ def cut_loop(ex, node, st, lid, lspec, it, guard, auto_range):
         o = ex.exec_block(node.body, dry)
         return merge(o.normal, o.cont)
     wv, wh = written_sets(ex, body_runner, st)
+    # loop-carried variables whose kind widens in the body (somme = 0 ... somme += float)
+    widened = False
+    for v, k in list(wv.items()):
+        cur = st.vars.get(v)
+        if k is not None and cur is not None and cur is not POISON and cur.kind != k:
+            try:
+                jk = join_kinds(cur.kind, k)
+            except OutOfSubset:
+                continue
+            if jk != cur.kind:
+                st.vars[v], _ = coerce(cur, jk)
+                widened = True
+    if widened:
+        wv, wh2 = written_sets(ex, body_runner, st)
+        wh |= wh2
+    wv = set(wv)
     if lspec.modifies is not None:
         wh |= {tuple(m.split(".")) for m in lspec.modifies}
     if is_for:
